@@ -6,5 +6,6 @@ CONSTANTS
   Outcomes = {"ok", "app", "panic"}
   EarlyEnd = FALSE
   WithDrop = FALSE
+  WithFree = FALSE
 INVARIANTS HandlerAfterCall OutcomeIsHandlers StreamPrefix EndAfterAll RpcInvariants
 CONSTRAINT Emit
